@@ -37,7 +37,8 @@ struct Shared {
     starts: RefCell<Vec<u64>>,
     /// per host: guards alive
     alive: RefCell<Vec<i64>>,
-    /// [host, incarnation, task, event index at which the destructor ran]
+    /// [host, incarnation, task, event index at which the destructor ran,
+    ///  sim_elapsed() and since_epoch() as read by the destructor]
     drops: RefCell<Vec<Value>>,
 }
 
@@ -58,7 +59,10 @@ impl Guard {
 impl Drop for Guard {
     fn drop(&mut self) {
         self.sh.alive.borrow_mut()[self.host] -= 1;
-        self.sh.drops.borrow_mut().push(json!([self.host, self.inc, self.task, self.sh.cur_ev.get()]));
+        // clock reads made by the destructor (None outside the simulation / without a current host)
+        let se = turmoil::sim_elapsed().map(|d| d.as_nanos() as u64);
+        let ep = turmoil::since_epoch().map(|d| d.as_nanos() as u64);
+        self.sh.drops.borrow_mut().push(json!([self.host, self.inc, self.task, self.sh.cur_ev.get(), se, ep]));
     }
 }
 
